@@ -855,3 +855,131 @@ Section Inv.
     intros h e rows He Hr. apply (H3 h e rows He Hr).
   Qed.
 End Inv.
+
+(* ====================================================================== *)
+(* tree_free as a sum over the entries of the tree                        *)
+(* ====================================================================== *)
+Definition efree_at (es : list N) (j : nat) : N :=
+  match nth_error es j with Some e => e_free e | None => 0 end.
+
+Fixpoint nsum (n : nat) (f : nat -> N) : N :=
+  match n with O => 0 | S n' => f O + nsum n' (fun j => f (S j)) end.
+
+Lemma nsum_ext : forall n f f', (forall j, (j < n)%nat -> f j = f' j) -> nsum n f = nsum n f'.
+Proof.
+  induction n as [|n IH]; intros f f' H; cbn [nsum]; [reflexivity|].
+  rewrite (H O) by lia. f_equal. apply IH. intros j Hj. apply H. lia.
+Qed.
+
+Lemma nsum_zero : forall n f, (forall j, (j < n)%nat -> f j = 0) -> nsum n f = 0.
+Proof.
+  induction n as [|n IH]; intros f H; cbn [nsum]; [reflexivity|].
+  rewrite (H O) by lia. rewrite IH; [reflexivity|]. intros j Hj. apply H. lia.
+Qed.
+
+Lemma nsum_add : forall n f f' dd, (forall j, (j < n)%nat -> f' j + dd j = f j) ->
+  nsum n f' + nsum n dd = nsum n f.
+Proof.
+  induction n as [|n IH]; intros f f' dd H; cbn [nsum]; [reflexivity|].
+  pose proof (H O ltac:(lia)) as H0.
+  pose proof (IH (fun j => f (S j)) (fun j => f' (S j)) (fun j => dd (S j))) as IH'.
+  cbv beta in IH'. rewrite <- IH' by (intros j Hj; apply H; lia). lia.
+Qed.
+
+Lemma nsum_le : forall n f b, (forall j, (j < n)%nat -> f j <= b) -> nsum n f <= N.of_nat n * b.
+Proof.
+  induction n as [|n IH]; intros f b H; cbn [nsum]; [lia|].
+  pose proof (H O ltac:(lia)). pose proof (IH (fun j => f (S j)) b) as IH'. cbv beta in IH'.
+  specialize (IH' ltac:(intros j Hj; apply H; lia)). lia.
+Qed.
+
+Definition ind_range (a m : nat) (d : N) (j : nat) : N :=
+  if (a <=? j)%nat && (j <? a + m)%nat then d else 0.
+
+Lemma nsum_indicator : forall n a m d, (a + m <= n)%nat -> nsum n (ind_range a m d) = N.of_nat m * d.
+Proof.
+  induction n as [|n IH]; intros a m d H.
+  - assert (m = O) by lia. subst m. cbn [nsum]. lia.
+  - cbn [nsum]. destruct a as [|a].
+    + destruct m as [|m].
+      * rewrite nsum_zero; [unfold ind_range; cbn; lia|]. intros j Hj. unfold ind_range.
+        destruct (Nat.leb_spec 0 (S j)), (Nat.ltb_spec (S j) (0 + 0)); cbn [andb]; try reflexivity; lia.
+      * rewrite (nsum_ext n _ (ind_range 0 m d)).
+        -- rewrite IH by lia. unfold ind_range. cbn [Nat.leb Nat.add andb]. 
+           destruct (Nat.ltb_spec 0 (S m)); lia.
+        -- intros j Hj. unfold ind_range.
+           destruct (Nat.leb_spec 0 (S j)), (Nat.ltb_spec (S j) (0 + S m)),
+             (Nat.leb_spec 0 j), (Nat.ltb_spec j (0 + m)); cbn [andb]; try reflexivity; lia.
+    + rewrite (nsum_ext n _ (ind_range a m d)).
+      * rewrite IH by lia. unfold ind_range. cbn [Nat.leb andb]. lia.
+      * intros j Hj. unfold ind_range.
+        destruct (Nat.leb_spec (S a) (S j)), (Nat.ltb_spec (S j) (S a + m)),
+          (Nat.leb_spec a j), (Nat.ltb_spec j (a + m)); cbn [andb]; try reflexivity; lia.
+Qed.
+
+Lemma skipn_nth_cons {A} : forall (es : list A) r a, nth_error es r = Some a -> skipn r es = a :: skipn (S r) es.
+Proof.
+  induction es as [|x es IH]; intros r a H; [rewrite nth_error_nil in H; discriminate|].
+  destruct r as [|r]; cbn [nth_error] in H.
+  - injection H as <-. reflexivity.
+  - cbn [skipn]. rewrite (IH r a H). reflexivity.
+Qed.
+
+Lemma skipn_nth_none {A} : forall (es : list A) r, nth_error es r = None -> skipn r es = [].
+Proof. intros es r H. apply skipn_all2. apply nth_error_None, H. Qed.
+
+Lemma sum_free_nsum es : forall n r,
+  fold_right (fun e a => e_free e + a) 0 (firstn n (skipn r es)) = nsum n (fun j => efree_at es (r + j)).
+Proof.
+  induction n as [|n IH]; intros r; cbn [nsum]; [reflexivity|].
+  destruct (nth_error es r) as [a|] eqn:E.
+  - rewrite (skipn_nth_cons es r a E). cbn [firstn fold_right]. rewrite IH.
+    unfold efree_at at 2. rewrite Nat.add_0_r, E. f_equal.
+    apply nsum_ext. intros j _. f_equal. lia.
+  - rewrite (skipn_nth_none es r E), firstn_nil. cbn [fold_right].
+    unfold efree_at at 1. rewrite Nat.add_0_r, E.
+    rewrite nsum_zero; [reflexivity|]. intros j _. unfold efree_at.
+    assert (N : nth_error es (r + S j) = None).
+    { apply nth_error_None. apply nth_error_None in E. lia. }
+    rewrite N. reflexivity.
+Qed.
+
+Lemma tree_free_nsum g l t :
+  tree_free g l t = nsum (thuge_nat g) (fun j => efree_at (ents l) (nn (t * THUGE g) + j)).
+Proof. unfold tree_free. apply sum_free_nsum. Qed.
+
+Lemma nn_tree_base g t : nn (t * THUGE g) = (nn t * thuge_nat g)%nat.
+Proof. unfold nn. rewrite N2Nat.inj_mul, (THUGE_nat g), Nat2N.id. reflexivity. Qed.
+
+(* entries [H, H+m), all inside tree t0, each lose d free frames *)
+Lemma tree_free_change g l l' t0 H m d :
+  (nn (t0 * THUGE g) <= H)%nat -> (H + m <= nn (t0 * THUGE g) + thuge_nat g)%nat ->
+  (forall i, efree_at (ents l') i + ind_range H m d i = efree_at (ents l) i) ->
+  forall t, tree_free g l' t + (if t =? t0 then N.of_nat m * d else 0) = tree_free g l t.
+Proof.
+  intros H1 H2 Hch t. rewrite !tree_free_nsum. destruct (N.eqb_spec t t0) as [->|Hne].
+  - rewrite <- (nsum_indicator (thuge_nat g) (H - nn (t0 * THUGE g)) m d) by lia.
+    apply nsum_add. intros j Hj. rewrite <- (Hch (nn (t0 * THUGE g) + j)%nat). f_equal.
+    unfold ind_range.
+    destruct (Nat.leb_spec H (nn (t0 * THUGE g) + j)), (Nat.ltb_spec (nn (t0 * THUGE g) + j) (H + m)),
+      (Nat.leb_spec (H - nn (t0 * THUGE g)) j), (Nat.ltb_spec j (H - nn (t0 * THUGE g) + m));
+      cbn [andb]; try reflexivity; lia.
+  - rewrite N.add_0_r. apply nsum_ext. intros j Hj.
+    rewrite <- (Hch (nn (t * THUGE g) + j)%nat).
+    assert (Z : ind_range H m d (nn (t * THUGE g) + j) = 0).
+    { unfold ind_range. rewrite !nn_tree_base in *.
+      assert (nn t <> nn t0) by (unfold nn; lia).
+      destruct (Nat.leb_spec H (nn t * thuge_nat g + j)),
+        (Nat.ltb_spec (nn t * thuge_nat g + j) (H + m)); cbn [andb]; try reflexivity. nia. }
+    rewrite Z. lia.
+Qed.
+
+Lemma efree_at_upd es i x j :
+  efree_at (upd es i x) j = if Nat.eqb j i && (i <? length es)%nat then e_free x else efree_at es j.
+Proof.
+  unfold efree_at. destruct (Nat.eqb_spec j i) as [->|Hne]; cbn [andb].
+  - destruct (Nat.ltb_spec i (length es)).
+    + rewrite nth_error_upd_same by assumption. reflexivity.
+    + rewrite upd_oob by assumption. reflexivity.
+  - rewrite nth_error_upd_other by congruence. reflexivity.
+Qed.
